@@ -376,6 +376,16 @@ pub fn redo_renaming(id: &str, renamify_dir: &Path) -> Result<()> {
         return Err(anyhow!("Entry '{}' has not been reverted", id));
     }
 
+    // An entry can be redone only once: the redo is recorded as `redo-<id>-<timestamp>`, and that
+    // entry is what can be undone (and then redone) from here on.
+    let redo_prefix = format!("redo-{}-", entry.id);
+    if entries
+        .iter()
+        .any(|e| e.revert_of.is_none() && e.id.starts_with(&redo_prefix))
+    {
+        return Err(anyhow!("Entry '{}' has already been redone", id));
+    }
+
     eprintln!("Redoing renaming '{}'...", id);
 
     // Load the original plan from disk
